@@ -63,7 +63,7 @@ fn generate_track(track: &Track) -> Vec<u8> {
                 // note_len = e.v2 // not use
                 let note_vel = e.v3;
                 // note on
-                array_push_delta(&mut res, e.time - timepos);
+                array_push_delta(&mut res, e.time.saturating_sub(timepos));
                 timepos = timepos.max(e.time);
                 res.push(0x90 + midi_ch(e.channel));
                 res.push(midi_data7(note_no)); // note_no
@@ -73,27 +73,27 @@ fn generate_track(track: &Track) -> Vec<u8> {
                 let note_no = e.v1;
                 // note_len = e.v2 // not use
                 let note_vel = e.v3;
-                array_push_delta(&mut res, e.time - timepos);
+                array_push_delta(&mut res, e.time.saturating_sub(timepos));
                 timepos = timepos.max(e.time);
                 res.push(0x80 + midi_ch(e.channel));
                 res.push(midi_data7(note_no));
                 res.push(midi_data7(note_vel));
             },
             EventType::Voice => {
-                array_push_delta(&mut res, e.time - timepos);
+                array_push_delta(&mut res, e.time.saturating_sub(timepos));
                 timepos = timepos.max(e.time);
                 res.push(0xC0 + midi_ch(e.channel));
                 res.push(midi_data7(e.v1));
             },
             EventType::ControllChange => {
-                array_push_delta(&mut res, e.time - timepos);
+                array_push_delta(&mut res, e.time.saturating_sub(timepos));
                 timepos = timepos.max(e.time);
                 res.push(0xB0 + midi_ch(e.channel));
                 res.push(midi_data7(e.v1));
                 res.push(midi_data7(e.v2));
             },
             EventType::Meta => {
-                array_push_delta(&mut res, e.time - timepos);
+                array_push_delta(&mut res, e.time.saturating_sub(timepos));
                 timepos = timepos.max(e.time);
                 res.push(e.v1 as u8);
                 res.push(e.v2 as u8);
@@ -106,7 +106,7 @@ fn generate_track(track: &Track) -> Vec<u8> {
             EventType::SysEx => { // SysEx の書き込み処理
                 let data = e.data.clone().unwrap();
                 if data.len() == 0 { continue; }
-                let delta_time = e.time - timepos;
+                let delta_time = e.time.saturating_sub(timepos);
                 array_push_delta(&mut res, delta_time);
                 timepos = timepos.max(e.time);
                 // 1st byte 0xF0 is not written as data (see below)
@@ -126,7 +126,7 @@ fn generate_track(track: &Track) -> Vec<u8> {
                 let msb = ((v >> 7) & 0x7F) as u8;
                 let lsb = ((v >> 0) & 0x7F) as u8;
                 // println!("PB={}(0x{:02x}{:02x})", v, msb, lsb);
-                array_push_delta(&mut res, e.time - timepos);
+                array_push_delta(&mut res, e.time.saturating_sub(timepos));
                 timepos = timepos.max(e.time);
                 res.push(0xE0 + midi_ch(e.channel));
                 res.push(lsb);
@@ -137,7 +137,7 @@ fn generate_track(track: &Track) -> Vec<u8> {
                 let range = e.v1;
                 let range = if range >= 0 && range <= 24 { range as u8 } else { 0 };
                 // RPN MSB
-                array_push_delta(&mut res, e.time - timepos);
+                array_push_delta(&mut res, e.time.saturating_sub(timepos));
                 timepos = timepos.max(e.time);
                 res.push(0xB0 + midi_ch(e.channel));
                 res.push(MIDI_RPN_MSB);
@@ -156,7 +156,7 @@ fn generate_track(track: &Track) -> Vec<u8> {
             EventType::DirectSMF => {
                 let data = e.data.clone().unwrap();
                 if data.len() == 0 { continue; }
-                let delta_time = e.time - timepos;
+                let delta_time = e.time.saturating_sub(timepos);
                 array_push_delta(&mut res, delta_time);
                 timepos = timepos.max(e.time);
                 // write data
